@@ -606,7 +606,8 @@ class FnTranslator:
                 env["self"] = st
                 params.append(("self", st))
             elif self.impl in u.fi.tuple_structs and u.resolve(("named", self.impl, []))[0] != "opaque":
-                if f["self"] != "ref": raise RsError("&mut self method of a tuple struct")
+                # (b1617, round 9) `&mut self` of a tuple struct listed under tuple_structs: `self` is the tuple / the
+                # component itself; writes go through `self.0…` places and the new `self` is returned like a struct's
                 st = u.resolve(("named", self.impl, []))
                 env["self"] = st
                 params.append(("self", st))
@@ -727,7 +728,9 @@ class FnTranslator:
 
     def out_parts(self):
         parts = []
-        if self.selfk == "mut": parts.append(("self", ("struct", self.impl)))
+        if self.selfk == "mut":     # (a tuple struct listed under tuple_structs is its tuple / component: b1617, round 9)
+            parts.append(("self", dict(self.params)["self"] if self.impl in self.u.fi.tuple_structs and self.params
+                          and self.params[0][0] == "self" else ("struct", self.impl)))
         for mp in self.mut_params:
             parts.append((mp, dict(self.params)[mp]))
         return parts
@@ -1620,6 +1623,8 @@ class FnTranslator:
             return self.place_set(e[1][1], new, env, pre)
         if k == "tfield":
             base, bt = self.expr(e[1], env, pre, None)
+            if bt[0] != "tuple" and e[2] == 0 and bt in getattr(self.u, "newtype_reps", []):
+                return self.place_set(e[1], new, env, pre)      # `.0` of a newtype listed under tuple_structs (b1617)
             if bt[0] != "tuple": raise RsError("tuple field assignment on a non-tuple")
             n = len(bt[1])
             comps = [(new if j == e[2] else base + ".2" * j + (".1" if j < n - 1 else "")) for j in range(n)]
@@ -2115,6 +2120,9 @@ class FnTranslator:
             term, t = self.expr(fe, env, pre, ft)
             self.check_ty(t, ft, "field %s" % f)
             parts.append("%s := %s" % (lid(f), term))
+        if str(self.u.struct_src.get(name, "")).startswith("trusted view") and not self.u.opaques_of(("struct", name), []):
+            # (b1617, round 9) a literal of a declared view may initialise a `let` (no expected type in Lean): ascribe it
+            return "({ " + ", ".join(parts) + " } : " + name + ")", ("struct", name)
         return "{ " + ", ".join(parts) + " }", ("struct", name)
 
     def format_(self, e, env, pre):
@@ -2622,8 +2630,9 @@ class FnTranslator:
             return "(%s.%s %s)" % (en, lid(name), " ".join(terms)), ("enum", en), "val"
         impl = None
         if len(segs) == 2 and segs[0] in ("Self", self.impl): impl = self.impl
-        elif len(segs) == 2 and (segs[0], name) in self.u.fi.fns and (segs[0] in self.u.fi.structs or segs[0] in self.u.fi.enum_data):
-            impl = segs[0]
+        elif len(segs) == 2 and (segs[0], name) in self.u.fi.fns and (segs[0] in self.u.fi.structs or segs[0] in self.u.fi.enum_data
+                                                                  or segs[0] in self.u.fi.tuple_structs):
+            impl = segs[0]      # (tuple structs: b1617, round 9)
         elif len(segs) != 1: raise RsError("call of %s is outside the subset" % "::".join(segs))
         if name in self.u.externals and impl is None:
             return self.call_external(name, args, env, pre)
